@@ -223,10 +223,10 @@ theorem openWith_rejected (ro : Bool) (file : Bytes) (s : SavedIndex)
     openWith ro file (some s) = openWith ro file none := by
   unfold openWith restoreIndex
   cases hs : checkSanity file s.index s.pos with
-  | error e => simp only []
+  | error e => simp only [hs]
   | ok v =>
     cases v with
-    | none => simp only []
+    | none => simp only [hs]
     | some l => exact absurd hs (h l)
 
 /-! ### side files -/
